@@ -326,6 +326,37 @@ Definition format_model (toks : list token) (m : msg) : qstr :=
   match src_inband_marker with None => format_oob toks m | Some mk => format_inband mk toks m end.
 Definition format_pattern (p : qstr) (m : msg) : qstr := format_model (parse_pattern p) m.
 
+(* ---- ONE formatter object used for several messages ----
+   What a PatternFormatter carries from one format() call to the next: the token list its constructor
+   built (never written afterwards) and - through the thread it runs on - the value the thread_local
+   pending-remove counter was left with ([opending]; whatever ran before on the thread may have left
+   anything there).  format() assigns 0 to the counter on entry and again before it returns; with an
+   empty token list it returns the message before touching the counter. *)
+Record fobj := { otoks : list token; opending : N }.
+Definition construct (p : qstr) (leftover : N) : fobj := {| otoks := parse_pattern p; opending := leftover |}.
+Definition call_oob (o : fobj) (m : msg) : qstr * fobj :=
+  match otoks o with
+  | [] => (text m, o)
+  | _ => (fst (run_oob m (otoks o) ([], 0)), {| otoks := otoks o; opending := 0 |})
+  end.
+(* the in-band evaluator has no state besides the tokens *)
+Definition call_model (o : fobj) (m : msg) : qstr * fobj :=
+  match src_inband_marker with None => call_oob o m | Some mk => (format_inband mk (otoks o) m, o) end.
+(* the results of formatting the messages [ms], in this order, with the same object *)
+Fixpoint calls_model (o : fobj) (ms : list msg) : list qstr * fobj :=
+  match ms with
+  | [] => ([], o)
+  | m :: r => let '(x, o1) := call_model o m in let '(xs, o2) := calls_model o1 r in (x :: xs, o2)
+  end.
+Definition format_seq (p : qstr) (leftover : N) (ms : list msg) : list qstr := fst (calls_model (construct p leftover) ms).
+(* what format() would be WITHOUT the two resets (the counter of the previous call is picked up and the
+   final one is left behind): kept only to show that the statelessness theorem is not vacuous *)
+Definition call_leaky (o : fobj) (m : msg) : qstr * fobj :=
+  match otoks o with
+  | [] => (text m, o)
+  | _ => let st := run_oob m (otoks o) ([], opending o) in (fst st, {| otoks := otoks o; opending := snd st |})
+  end.
+
 (* ---- the documented reading, token by token ---- *)
 Definition missing_optional (m : msg) (t : token) : bool :=
   match kind t with KAttr n true _ _ => match lookup n (attrs m) with None => true | Some _ => false end | _ => false end.
@@ -375,3 +406,12 @@ Definition result_is_null (toks : list token) (msg_null : bool) : bool :=
   match toks with [] => msg_null | _ => false end.
 Definition oracle_pattern_null (p : qstr) (m : msg) (msg_null : bool) (o : qstr) (o_null : bool) : bool :=
   oracle_pattern p m o && Bool.eqb o_null (result_is_null (parse_pattern p) msg_null).
+
+(* ---- several messages through one formatter object: every result must be the documented reading of
+   ITS OWN message (what the other messages of the sequence contain or lack is irrelevant) ---- *)
+Fixpoint oracle_seq (p : qstr) (ms : list msg) (os : list qstr) : bool :=
+  match ms, os with
+  | [], [] => true
+  | m :: ms', o :: os' => oracle_pattern p m o && oracle_seq p ms' os'
+  | _, _ => false
+  end.
